@@ -76,6 +76,7 @@ func (a *adapter) Flight(key, cmd string, ttl time.Duration, now time.Time) (Red
 	if flight != nil {
 		return RedisMessage{}, flight
 	}
+	vhook("adapter.flight.slow", a, 0, 0)
 	a.mu.Lock()
 	entries := a.flights[key]
 	if entries == nil && a.flights != nil {
